@@ -14,7 +14,7 @@ LEVEL = "model_checking"
 CODE_DEV = ["UserLookupGap"]
 
 KIND = {"conn": 1, "connr": 2, "serve": 3, "update": 4, "commit": 5}
-ALL_GATES = ["auth", "resolved", "miss", "failed", "unlocked", "queued", "closed", "lockedA", "lockedQ", "collected"]
+ALL_GATES = ["auth", "closing", "resolved", "miss", "failed", "unlocked", "queued", "closed", "lockedA", "lockedQ", "collected"]
 
 ASSUME = [
     "all users are limited users (bypass users and the admin UID are not modelled)",
@@ -141,6 +141,24 @@ def has_dup(b):
         return False
     live = [(x["u"], x["s"]) for x in o["obj"] if x["live"]]
     return len(live) != len(set(live))
+
+
+def transient(b, pred):
+    """some settled moment of the behaviour (not only the last) satisfies pred(obs)"""
+    return any(pred(st["obs"]) for st in b["steps"])
+
+
+def obs_dup(o):
+    live = [(x["u"], x["s"]) for x in o["obj"] if x["live"]]
+    return len(live) != len(set(live))
+
+
+def obs_over_cap(o, caps):
+    n = {}
+    for x in o["obj"]:
+        if x["live"]:
+            n[x["u"]] = n.get(x["u"], 0) + 1
+    return any(c > caps[u - 1] for u, c in n.items())
 
 
 def is_dead(b):
